@@ -16,7 +16,7 @@ D = {
  "C10-m1": ("M c10_m_rfc3339_fields", "quick"), "C10-m2": (None, "missed: reader side (scan::nanosecond on non-ASCII numerics); no reader obligation built"),
  "C11-m1": ("M c11_m_rfc2822_fields", "quick"), "C11-m2": (None, "missed: reader side (two-digit year pivot in parse_rfc2822); no reader obligation built"),
  "C12-m1": ("K c12_offset_z, c12_offset_colon", "quick"), "C12-m2": ("K c12_year_small", "quick"),
- "C13-m1": (None, "missed: parser sign table for %G; the item-level inverse harnesses cover %Y-%m-%d and %H:%M:%S only"),
+ "C13-m1": ("K c13_items_iso_week_date (thorough tier; 44 min incl. counterexample generation and native replay)", "thorough"),
  "C13-m2": ("M c12_m_year_items (registered for C13 as well)", "quick"),
  "C14-m1": ("K c14_date_sound_ymd", "quick"), "C14-m2": ("K c14_ambiguous_offset_choice", "quick"),
  "C14-m3": (None, "missed: c14_m_parsed_timestamp decides the time of day of the reconstruction, not its date (the date claim stayed unknown at 90 s per query and was dropped); the mutant changes only the year at a year boundary with second = 60"),
